@@ -8,7 +8,6 @@ import (
 	"net"
 	"slices"
 	"strings"
-	"unsafe"
 
 	"golang.org/x/crypto/cryptobyte"
 )
@@ -493,17 +492,24 @@ func (d decoder) name(s *cryptobyte.String) (string, error) {
 
 func (d decoder) nameLabels(s *cryptobyte.String) ([]string, error) {
 	var labels []string
+	// A pointer must point before the start of the part of the name that
+	// contains it. Every jump therefore moves strictly towards the start of
+	// the message and the walk terminates, wherever the pointers are -
+	// including inside the bytes of a label. s is a sub-slice of d.raw, so
+	// the difference of the capacities is its offset in the message.
+	limit := cap(d.raw) - cap(*s)
+	size := 0
 	for {
 		for !s.Empty() && (*s)[0]&0xc0 == 0xc0 { // pointer
-			current := uintptr(unsafe.Pointer(&(*s)[0]))
 			var offset uint16
 			if !s.ReadUint16(&offset) {
 				return nil, ErrDecodeError
 			}
 			offset &= 0x3fff
-			if int(offset) >= len(d.raw) || uintptr(unsafe.Pointer(&d.raw[offset])) >= current {
+			if int(offset) >= limit {
 				return nil, ErrDecodeError
 			}
+			limit = int(offset)
 			ss := cryptobyte.String(d.raw[offset:])
 			s = &ss
 		}
@@ -513,6 +519,10 @@ func (d decoder) nameLabels(s *cryptobyte.String) ([]string, error) {
 		}
 		if len(name) == 0 {
 			break
+		}
+		// RFC 1035, Section 2.3.4: labels are 63 octets or less, names 255.
+		if size += len(name) + 1; len(name) > 63 || size > 254 {
+			return nil, ErrDecodeError
 		}
 		labels = append(labels, string(name))
 	}
